@@ -70,6 +70,41 @@ theorem C04_eval_thunk_computation_fixed (cfg : Cfg) (fuel : Nat) (t : TId) (st 
   · exact .inr (.inl hs')
   · exact .inr (.inr ⟨v, hs'⟩)
 
+/-- **C01 (no internal assertion trips): `set_done`.** `ThunkData::set_done` starts with
+    `assert!(matches!(*state, ThunkState::InProgress))`. In the model the failing branch of that
+    assertion sets the ghost flag `tripped` (and reports an internal error). For every task, fuel,
+    limit and store whose flag is clear, the flag is clear afterwards — on success and on failure:
+    the assertion cannot fail, because a thunk that is in progress stays in progress until its own
+    computation returns. -/
+theorem C01_eval_set_done_assertion_never_fails (cfg : Cfg) (n : Nat) (task : Task) (st : St)
+    (h0 : st.tripped = false) (r : Except Err Value) (st' : St) (h : run cfg n task st = some (r, st')) :
+    st'.tripped = false := by
+  have hR := triple_elim (run_spec cfg n task st)
+  rw [h] at hR
+  exact hR.trip h0
+
+/-- the same for a whole program evaluated from the empty store -/
+theorem C01_eval_program_set_done_assertion_never_fails (cfg : Cfg) (fuel : Nat) (e : Expr)
+    (r : Except Err String) (st' : St) (h : programProg cfg fuel e {} = some (r, st')) :
+    st'.tripped = false := by
+  have hR := triple_elim (programProg_spec {} cfg fuel e)
+  rw [h] at hR
+  exact hR.trip rfl
+
+/-- **C11 / C10 (self-dependence is detected, not resolved).** A thunk that is in progress when a
+    task starts is still in progress, with the same computation, when the task ends (with a value
+    or an error): nothing but its own force can finish it, so reaching it again can only report
+    infinite recursion. -/
+theorem C11_eval_in_progress_is_kept (cfg : Cfg) (n : Nat) (task : Task) (st : St)
+    (r : Except Err Value) (st' : St) (h : run cfg n task st = some (r, st'))
+    (u : Nat) (p : Pending) (hu : st.thunks[u]? = some (.inProgress p)) :
+    st'.thunks[u]? = some (.inProgress p) := by
+  have hR := triple_elim (run_spec cfg n task st)
+  rw [h] at hR
+  obtain ⟨s', hs', hadv⟩ := hR.adv u _ hu
+  simp only [Adv] at hadv
+  rw [hs', hadv]
+
 /-- **Fuel-independent form used by the theorems above:** one evaluator task, any fuel. -/
 theorem C04_eval_run_later_store (cfg : Cfg) (n : Nat) (t : Task) (st : St) :
     outcomeOk st (run cfg n t st) :=
@@ -90,3 +125,9 @@ open Rsj.Eval in
 #print axioms C04_eval_thunk_computation_fixed
 open Rsj.Eval in
 #print axioms C04_eval_run_later_store
+open Rsj.Eval in
+#print axioms C01_eval_set_done_assertion_never_fails
+open Rsj.Eval in
+#print axioms C01_eval_program_set_done_assertion_never_fails
+open Rsj.Eval in
+#print axioms C11_eval_in_progress_is_kept
